@@ -231,9 +231,12 @@ def run_case(case):
         tkey = lambda r: (r['t'], exact(r['k']))                           # noqa: E731
     elif c == 'text_text':
         rows = [{'id': i, 't': rng.choice(TEXT), 'u': rng.choice(TEXT)} for i in range(n)]
-        form = rng.choice(['fmt', 'list', 'fmt_sep'])
-        key = {'fmt': '{t}{u}', 'list': ['t', 'u'], 'fmt_sep': '{t}, {u}'}[form]
+        form = rng.choice(['fmt', 'list', 'fmt_sep', 'fmt_field_twice'])
+        key = {'fmt': '{t}{u}', 'list': ['t', 'u'], 'fmt_sep': '{t}, {u}', 'fmt_field_twice': '{t:.1}{u}{t}'}[form]
         tkey = lambda r: (r['t'], r['u'])                                  # noqa: E731
+        if form == 'fmt_field_twice':
+            # one field used by two parts of the key, each with its own format spec: three parts, in that order
+            tkey = lambda r: (r['t'][:1], r['u'], r['t'])                  # noqa: E731
     elif c == 'fmt_pad':
         rows = [{'id': i, 'k': rng.randint(0, 99999), 't': rng.choice(TEXT)} for i in range(n)]
         form = rng.choice(['pad', 'pad_text'])
@@ -268,6 +271,16 @@ def run_case(case):
            'reverse': reverse, 'batch_size': batch}
     if c == 'nan_present':
         return run_nan(case, rows, key, reverse, batch, cfg, d, counters, cov, viol)
+    if boot.rng(case['seed'], 'C12', 'payload', c, case['idx']).random() < 0.25 and rows:
+        # cells that are not part of the key travel through the sorter as they are (microseconds, UTC offsets, tuples)
+        import datetime as dt_
+        pr_ = boot.rng(case['seed'], 'C12', 'payload/cells', c, case['idx'])
+        stamps = [dt_.datetime(2020, 1, 2, 3, 4, 5, 678901), dt_.datetime(2021, 6, 30, 23, 59, 59, 1, tzinfo=dt_.timezone(dt_.timedelta(hours=-3, minutes=-30))),
+                  dt_.time(1, 2, 3, 456), None, dt_.datetime(1999, 12, 31, tzinfo=dt_.timezone.utc)]
+        for r_ in rows:
+            r_['stamp'] = pr_.choice(stamps)
+        cfg['payload_cells'] = 'datetime / time with microseconds and offsets'
+        cov['regime']['payload_temporal_cells'] = 1
     if boot.rng(case['seed'], 'C12', 'keyorder', c, case['idx']).random() < 0.15 and len(rows) > 1:
         # the rows of a resource are mappings: the order in which a row lists its fields is not part of the row (a row
         # function that rebuilds some rows lists them differently)
@@ -284,7 +297,7 @@ def run_case(case):
     exp = list(reversed(asc)) if reverse else asc
     def srcstep():
         # explicit schema (no inference, no cast): '' stays '', numbers keep their Python type
-        typ = {'id': 'integer', 't': 'string', 'u': 'string'}
+        typ = {'id': 'integer', 't': 'string', 'u': 'string', 'stamp': 'any'}
         ktyp = 'string' if c in ('text', 'text_unicode') else 'number'
         flds = [{'name': f, 'type': typ.get(f, ktyp)} for f in (rows[0] if rows else {'id': 0})]
         return lab.source('res', flds, rows)
